@@ -18,11 +18,11 @@ CONSTANTS
   LabelStmts = FALSE
   Contains = FALSE
   PKinds <- KCmt
-  MaxEdits = 1
+  MaxEdits = 2
   InsSet <- InsSmall
   MinEdits = 0
   Randomised = FALSE
-  DumpMod = 1
+  DumpMod = 3
   NRepl = 17
   RichOnly = FALSE
   NeedStruct = FALSE
